@@ -367,6 +367,8 @@ def _odp(C, repo):
 def _epub(C, repo):
     rel = EX + "epub_extractor.py"
     m = loader.module(rel, repo)
+    _returns_numbered(C, m, rel, "_extract_chapter", "C03/epub_extractor.py::_extract_chapter/construction#returned-chapter-carries-the-number-passed-in",
+                      "EpubChapter", "chapter_number", "chapter_number", first_of_tuple=True, allow_none=True)
     fn = m.functions.get("read_epub")
     oid = "C03/epub_extractor.py::read_epub/construction#chapter-number-is-the-1-based-spine-position"
     if fn is None:
@@ -410,8 +412,6 @@ def _epub(C, repo):
         return C.add(oid, None, "increment is not the first statement of the loop body, or chapter list mutated elsewhere")
     C.add(oid, not bad, f"paths={sorted(paths)}", f"{rel}:{lp.lineno}")
     C.fn(m, "read_epub")
-    _returns_numbered(C, m, rel, "_extract_chapter", "C03/epub_extractor.py::_extract_chapter/construction#returned-chapter-carries-the-number-passed-in",
-                      "EpubChapter", "chapter_number", "chapter_number", first_of_tuple=True, allow_none=True)
 
 
 def _mbox(C, repo):
@@ -585,13 +585,36 @@ def _yield_groups_exclusive(fn, allowed_loop_over):
     return all(g[2] for g in groups) and bool(groups), groups
 
 
+class _Group:
+    """A fixed set of obligation ids; an early exit reports the main one and leaves the others unknown."""
+
+    def __init__(self, C, base, ids, main):
+        self.C, self.base, self.ids, self.main, self.done = C, base, ids, main, set()
+
+    def add(self, label, verdict, detail="", loc=""):
+        self.done.add(label)
+        self.C.add(self.base + "#" + label, verdict, detail, loc)
+
+    def bail(self, verdict, detail, loc=""):
+        self.add(self.main, verdict, detail, loc)
+        for l in self.ids:
+            if l not in self.done:
+                self.add(l, None, "not analysed: " + detail)
+
+
 def _list_counter_iterator(C, m, cls, unit):
     """doc / odt: units are collected in a list by a nested flush function that numbers them with a counter."""
     q = f"{cls}.iterate_units"
     fn = m.functions.get(q)
     base = f"C03/data_types.py::{q}/numbering"
+    G = _Group(C, base, ["every-appended-unit-takes-the-counter-then-increments-it", "unit-list-only-grows-by-numbered-appends",
+                         "units-numbered-1..m-in-yield-order"], "units-numbered-1..m-in-yield-order")
+    return _list_counter_iterator_(G, C, m, cls, unit, q, fn, base)
+
+
+def _list_counter_iterator_(G, C, m, cls, unit, q, fn, base):
     if fn is None:
-        return C.add(base + "#units-numbered-1..m-in-yield-order", None, "missing")
+        return G.bail(None, "missing")
     nested = [n for n in fn.body if isinstance(n, ast.FunctionDef)]
     # the nested function that appends <unit>(unit_number=<counter>) to a list
     cand = []
@@ -603,7 +626,7 @@ def _list_counter_iterator(C, m, cls, unit):
                 if isinstance(k, ast.Name):
                     cand.append((nf, n, n.func.value.id, k.id))
     if len(cand) != 1:
-        return C.add(base + "#units-numbered-1..m-in-yield-order", None, f"{len(cand)} numbered appends in nested functions")
+        return G.bail(None, f"{len(cand)} numbered appends in nested functions")
     flush, app_node, lst, ctr = cand[0]
     # (1) counter: initialised to 1 once at function level, only other assignment is `ctr += 1` inside flush, paired with the append
     defs = assigns_to(fn, ctr)
@@ -612,17 +635,16 @@ def _list_counter_iterator(C, m, cls, unit):
     others = [d for d in defs if d not in init and d not in incs]
     nonlocal_ok = any(isinstance(n, ast.Nonlocal) and ctr in n.names for n in flush.body)
     if len(init) != 1 or others or not nonlocal_ok or any(not any(i is x for x in ast.walk(flush)) for i in incs):
-        return C.add(base + "#units-numbered-1..m-in-yield-order", None, f"counter {ctr}: inits={len(init)} others={len(others)}")
+        return G.bail(None, f"counter {ctr}: inits={len(init)} others={len(others)}")
     if init[0].value.value != 1:
-        C.add(base + "#units-numbered-1..m-in-yield-order", False, f"counter {ctr} starts at {init[0].value.value}: first unit would not be number 1", f"{DT}:{init[0].lineno}")
-        return
+        return G.bail(False, f"counter {ctr} starts at {init[0].value.value}: first unit would not be number 1", f"{DT}:{init[0].lineno}")
     is_app = lambda n: n is app_node
     is_inc = lambda n: any(n is i for i in incs)
     paths = iteration_paths(flush.body, [is_app, is_inc])
     paired = all(v in ((0, 0), (1, 1)) for (v, s) in paths if s in ("fall", "return"))
     order = all(i.lineno > app_node.lineno for i in incs) and len(incs) >= 1
     # between append and increment nothing reads/writes the counter again: same block, append statement directly followed by the increment
-    C.add(base + "#every-appended-unit-takes-the-counter-then-increments-it", paired and order, f"flush paths={sorted(paths)}", f"{DT}:{flush.lineno}")
+    G.add("every-appended-unit-takes-the-counter-then-increments-it", paired and order, f"flush paths={sorted(paths)}", f"{DT}:{flush.lineno}")
     # (2) the list: other mutations are `= []`, `= [<unit>(unit_number=1)]` or `.append(<unit>(unit_number=1))` in a branch ending with return
     #     before flush is ever called; reordering calls are absent
     bad = []
@@ -645,9 +667,9 @@ def _list_counter_iterator(C, m, cls, unit):
         if isinstance(n, ast.Attribute) and isinstance(n.ctx, ast.Store) and n.attr == "unit_number":
             bad.append(f"line {n.lineno}: unit_number stored")
     if bad:
-        C.add(base + "#unit-list-only-grows-by-numbered-appends", None, "; ".join(bad))
+        G.add("unit-list-only-grows-by-numbered-appends", None, "; ".join(bad))
     else:
-        C.add(base + "#unit-list-only-grows-by-numbered-appends", True, f"list {lst}", f"{DT}:{fn.lineno}")
+        G.add("unit-list-only-grows-by-numbered-appends", True, f"list {lst}", f"{DT}:{fn.lineno}")
     # (3) yields
     ok, groups = _yield_groups_exclusive(fn, {lst})
     singles_ok = True
@@ -656,9 +678,9 @@ def _list_counter_iterator(C, m, cls, unit):
             v = s.value.value
             singles_ok &= isinstance(v, ast.Call) and dotted(v.func) == unit and isinstance(kw(v, "unit_number"), ast.Constant) and kw(v, "unit_number").value == 1
     if not ok:
-        C.add(base + "#units-numbered-1..m-in-yield-order", None, f"yield groups: {[(g[0], g[1].lineno, g[2]) for g in groups]}")
+        G.add("units-numbered-1..m-in-yield-order", None, f"yield groups: {[(g[0], g[1].lineno, g[2]) for g in groups]}")
     else:
-        C.add(base + "#units-numbered-1..m-in-yield-order", singles_ok,
+        G.add("units-numbered-1..m-in-yield-order", singles_ok,
               f"{len(groups)} mutually exclusive yield groups (list iteration in order / single unit numbered 1)", f"{DT}:{fn.lineno}")
     C.fn(m, q, 3)
 
@@ -667,8 +689,10 @@ def _docx_iterator(C, m):
     q = "DocxContent.iterate_units"
     fn = m.functions.get(q)
     base = f"C03/data_types.py::{q}/numbering"
+    G = _Group(C, base, ["each-flush-yields-nothing-or-one-unit-numbered-by-the-incremented-counter", "units-numbered-1..m-in-yield-order"],
+               "units-numbered-1..m-in-yield-order")
     if fn is None:
-        return C.add(base + "#units-numbered-1..m-in-yield-order", None, "missing")
+        return G.bail(None, "missing")
     nested = [n for n in fn.body if isinstance(n, ast.FunctionDef)]
     cand = []
     for nf in nested:
@@ -676,18 +700,17 @@ def _docx_iterator(C, m):
             if isinstance(n, ast.Call) and dotted(n.func) == "DocxUnit" and isinstance(kw(n, "unit_number"), ast.Name):
                 cand.append((nf, n, kw(n, "unit_number").id))
     if len(cand) != 1:
-        return C.add(base + "#units-numbered-1..m-in-yield-order", None, f"{len(cand)} numbered unit constructions in nested functions")
+        return G.bail(None, f"{len(cand)} numbered unit constructions in nested functions")
     flush, ctor, ctr = cand[0]
     defs = assigns_to(fn, ctr)
     init = [d for d in defs if isinstance(d, (ast.Assign, ast.AnnAssign)) and isinstance(d.value, ast.Constant) and d in fn.body]
     incs = [d for d in defs if isinstance(d, ast.AugAssign) and isinstance(d.op, ast.Add) and isinstance(d.value, ast.Constant) and d.value.value == 1]
     others = [d for d in defs if d not in init and d not in incs]
     if len(init) != 1 or others or len(incs) != 1 or not any(incs[0] is x for x in ast.walk(flush)):
-        return C.add(base + "#units-numbered-1..m-in-yield-order", None, f"counter {ctr}: inits={len(init)} incs={len(incs)} others={len(others)}")
+        return G.bail(None, f"counter {ctr}: inits={len(init)} incs={len(incs)} others={len(others)}")
     if init[0].value.value != 0:
-        C.add(base + "#units-numbered-1..m-in-yield-order", False,
-              f"counter {ctr} starts at {init[0].value.value} and is incremented before use: first unit would not be number 1", f"{DT}:{init[0].lineno}")
-        return
+        return G.bail(False, f"counter {ctr} starts at {init[0].value.value} and is incremented before use: first unit would not be number 1",
+                      f"{DT}:{init[0].lineno}")
     # flush: every return is iter(()) or -- directly after the single increment -- iter([DocxUnit(unit_number=ctr)])
     is_inc = lambda n: n is incs[0]
     is_unit_ret = lambda n: isinstance(n, ast.Return) and any(x is ctor for x in ast.walk(n))
@@ -698,7 +721,7 @@ def _docx_iterator(C, m):
         and len(unit_rets[0].value.args[0].elts) == 1 and incs[0].lineno < unit_rets[0].lineno
     empties = [n for n in ast.walk(flush) if isinstance(n, ast.Return) and n not in unit_rets]
     shape = shape and all(ast.unparse(r.value).replace(" ", "") == "iter(())" for r in empties)
-    C.add(base + "#each-flush-yields-nothing-or-one-unit-numbered-by-the-incremented-counter", (paired and shape) if shape else None,
+    G.add("each-flush-yields-nothing-or-one-unit-numbered-by-the-incremented-counter", (paired and shape) if shape else None,
           f"flush paths={sorted(paths)}", f"{DT}:{flush.lineno}")
     # every use of flush is `yield from flush(...)`; other yields: a single final unit numbered 1 reachable only when no heading was seen
     calls = [n for n in ast.walk(fn) if isinstance(n, ast.Call) and dotted(n.func) == flush.name]
@@ -731,13 +754,13 @@ def _docx_iterator(C, m):
                 ok &= set(flag_defs) <= {f"{flag} = False", f"{flag} = True"}
                 final_ok = ok and k.value == 1
                 if ok and k.value != 1:
-                    C.add(base + "#units-numbered-1..m-in-yield-order", False, f"the single unit of a document without headings is numbered {k.value}", f"{DT}:{ys[0].lineno}")
+                    G.add("units-numbered-1..m-in-yield-order", False, f"the single unit of a document without headings is numbered {k.value}", f"{DT}:{ys[0].lineno}")
                     C.fn(m, q, 2)
                     return
     if not uses_ok or final_ok is None:
-        C.add(base + "#units-numbered-1..m-in-yield-order", None, f"flush uses ok={uses_ok}, final unit pattern recognised={final_ok is not None}")
+        G.add("units-numbered-1..m-in-yield-order", None, f"flush uses ok={uses_ok}, final unit pattern recognised={final_ok is not None}")
     else:
-        C.add(base + "#units-numbered-1..m-in-yield-order", final_ok,
+        G.add("units-numbered-1..m-in-yield-order", final_ok,
               "units come from `yield from flush(...)` in call order; the un-numbered fallback unit (number 1) only when no heading was seen, "
               "in which case flush never produced a unit", f"{DT}:{fn.lineno}")
     C.fn(m, q, 2)
